@@ -41,7 +41,7 @@ Counts == IF Thorough THEN {1, 2, 3, 4, 5, 124, 125} ELSE {1, 2, 4, 5, 125}
 StartsFor(n) ==
     (IF Thorough THEN {0, 1, 2, 3, 100, 32767, 32768} ELSE {0, 3, 32768}) \cup
     {65536 - n - k : k \in (IF Thorough THEN 0..3 ELSE {0, 1})}
-Defs == IF Thorough THEN NamedOrders ELSE {BE_HIGH, LE_LOW}
+Defs == NamedOrders      \* every named order as the default order (quick tier too: a deviation may show for one order only)
 
 Win(s, n, d) ==
     [op |-> "window", start |-> s, payload |-> IF d = LE_LOW /\ n <= 5 THEN PayNul(n) ELSE Pay(n),
@@ -79,7 +79,7 @@ C13Cases(z) ==
         h \in UNION {[1..k -> 1..Len(Rep)] : k \in 1..2}, d \in {BE_HIGH, LE_LOW}}
     \* all histories of length 1 and 2 over the full menu (a mutation shows at the mutating call, order dependence at the second)
     \cup {[op |-> "window", start |-> 100, payload |-> Pay(6), def |-> d, calls |-> [i \in 1..Len(h) |-> FullMenu[h[i]]], fresh |-> FALSE] :
-        h \in UNION {[1..k -> 1..Len(FullMenu)] : k \in 1..2}, d \in (IF Thorough THEN NamedOrders ELSE {BE_HIGH, LE_HIGH})}
+        h \in UNION {[1..k -> 1..Len(FullMenu)] : k \in 1..2}, d \in NamedOrders}
 
 CaseSet(z) == CASE Set = "c04" -> C04Cases(0) [] Set = "c13" -> C13Cases(0)
 
